@@ -1,5 +1,9 @@
 #!/bin/sh
-# regenerate _CoqProject and Makefile from the files present (run from /verif/coq)
+# regenerate _CoqProject and Makefile (run from /verif/coq): Common/ plus the directories of the
+# properties listed in ../manifest.d/enabled.txt (integrated checks); paths containing /run/ are
+# compiled by the checks themselves (they depend on generated files)
 cd "$(dirname "$0")"
-{ echo "-R . Kawin"; find Common C[0-9][0-9] -name '*.v' -not -path '*/run/*' 2>/dev/null | sort; } > _CoqProject
+dirs="Common"
+for p in $(cat ../manifest.d/enabled.txt); do [ -d "$p" ] && dirs="$dirs $p"; done
+{ echo "-R . Kawin"; find $dirs -name '*.v' -not -path '*/run/*' 2>/dev/null | sort; } > _CoqProject
 coq_makefile -f _CoqProject -o Makefile > /dev/null 2>&1
